@@ -563,8 +563,10 @@ pub fn mon_ack(scn: &Scenario, r: &Record, out: &mut V) {
         // ACK-only packets included (Path::can_transmit).  A pacing interval never exceeds one smoothed
         // RTT (rate >= cwnd/srtt, burst <= cwnd), so the pacer can only be in the way if the endpoint
         // itself sent a congestion-controlled packet within the last srtt.  Derived from the record:
+        // (the pacer belongs to the path and is shared by all packet number spaces: a Handshake flight
+        // sent just before the handshake completes delays the first 1-RTT ACKs in the same way)
         let mut cc_sends: Vec<u64> = Vec::new(); // times of own ack-eliciting packets
-        for q in r.tx.iter().filter(|q| q.ep == ep && q.space == 2) {
+        for q in r.tx.iter().filter(|q| q.ep == ep) {
             if q.frames.iter().any(|f| f.ack_eliciting() || matches!(f, F::Padding(_))) {
                 cc_sends.push(q.t);
             }
@@ -608,6 +610,267 @@ pub fn mon_ack(scn: &Scenario, r: &Record, out: &mut V) {
 }
 
 // ------------------------------------------------------------------------------------------
+// RETRY (RFC 9000 8.1.2, 17.2.5; RFC 9002 6.3): wire-level view shared by AMP / LOSS / RETRY
+// ------------------------------------------------------------------------------------------
+
+#[derive(Clone, Debug)]
+pub struct RetryDgram {
+    /// index into r.dgrams
+    pub di: usize,
+    pub t: u64,
+    pub dst: std::net::SocketAddr,
+    pub dcid: Vec<u8>,
+    pub scid: Vec<u8>,
+    pub token: Vec<u8>,
+}
+
+#[derive(Clone, Debug)]
+pub struct ClientInitial {
+    pub di: usize,
+    pub t: u64,
+    pub src: std::net::SocketAddr,
+    pub dcid: Vec<u8>,
+    pub scid: Vec<u8>,
+    pub token: Vec<u8>,
+}
+
+#[derive(Clone, Debug, Default)]
+pub struct RetryView {
+    /// Retry datagrams the server sent
+    pub retries: Vec<RetryDgram>,
+    /// Initial packets in client datagrams (first packet of the datagram), in sending order
+    pub initials: Vec<ClientInitial>,
+    /// instants at which the client switched to the (connection id, token) of a Retry: (time the
+    /// Retry reached it, index into `retries`, index into `initials` of the first Initial using it)
+    pub accepted: Vec<(u64, usize, usize)>,
+}
+
+pub fn retry_view(r: &Record) -> RetryView {
+    let mut v = RetryView::default();
+    for (di, d) in r.dgrams.iter().enumerate() {
+        if d.from == SERVER {
+            for h in wire::long_headers(&d.payload) {
+                if h.kind == Kind::Retry {
+                    v.retries.push(RetryDgram { di, t: d.t, dst: d.dst, dcid: h.dcid, scid: h.scid, token: h.token });
+                }
+            }
+        } else if d.from == CLIENT {
+            if let Some(h) = wire::long_headers(&d.payload).into_iter().find(|h| h.kind == Kind::Initial) {
+                v.initials.push(ClientInitial { di, t: d.t, src: d.src, dcid: h.dcid, scid: h.scid, token: h.token });
+            }
+        }
+    }
+    // a change of (destination connection id, token) between consecutive client Initials that
+    // matches a Retry which had reached the client by then is an accepted Retry
+    for i in 1..v.initials.len() {
+        let (prev, cur) = (&v.initials[i - 1], &v.initials[i]);
+        if prev.token == cur.token && prev.dcid == cur.dcid {
+            continue;
+        }
+        let hit = v.retries.iter().enumerate().filter(|(_, rt)| rt.token == cur.token && rt.scid == cur.dcid).filter_map(|(ri, rt)| r.dgrams[rt.di].delivered_at.iter().filter(|t| **t <= cur.t).max().map(|t| (*t, ri))).max();
+        if let Some((t, ri)) = hit {
+            v.accepted.push((t, ri, i));
+        }
+    }
+    v
+}
+
+/// time at which the client took over a Retry, as seen in its event stream: the packet_received
+/// event of a Retry packet at one of the wire-derived instants
+fn retry_accept_times(r: &Record) -> Vec<u64> {
+    retry_view(r).accepted.iter().map(|a| a.0).collect()
+}
+
+pub fn mon_retry(scn: &Scenario, r: &Record, out: &mut V) {
+    let rv = retry_view(r);
+    let retry_on = scn.retry != crate::scenario::Retry::Off;
+    if !retry_on {
+        if !rv.retries.is_empty() {
+            v(out, "machinery.retry_unexpected", format!("the server sent {} Retry packet(s) in a scenario that does not ask for address validation by Retry", rv.retries.len()));
+        }
+        return;
+    }
+    // vacuity: whenever a token-less Initial reached the server intact, a Retry must exist
+    let tokenless_rx: Vec<(u64, &ClientInitial)> = rv.initials.iter().filter(|i| i.token.is_empty()).flat_map(|i| r.dgrams[i.di].delivered_at.iter().filter(move |_| r.dgrams[i.di].delivered_intact).map(move |t| (*t, i))).collect();
+    if !tokenless_rx.is_empty() && rv.retries.is_empty() && r.panicked.is_none() && r.stalled.is_none() {
+        v(out, "machinery.retry_vacuous", "a token-less Initial reached the server but no Retry packet was ever sent in a Retry scenario".into());
+    }
+    // --- server side
+    for (k, rt) in rv.retries.iter().enumerate() {
+        // RFC 9000 17.2.5.1: "A server MUST NOT send more than one Retry packet in response to a single
+        // UDP datagram"; 8.1.2: "In response to processing an Initial packet containing a token that was
+        // provided in a Retry packet, a server cannot send another Retry packet": the k-th Retry needs
+        // k token-less client Initial datagrams delivered by then
+        let triggers = r.dgrams.iter().filter(|d| d.from == CLIENT && d.src == rt.dst).filter(|d| wire::long_headers(&d.payload).first().map_or(false, |h| h.kind == Kind::Initial && h.token.is_empty())).map(|d| d.delivered_at.iter().filter(|t| **t <= rt.t).count()).sum::<usize>();
+        let earlier = rv.retries[..k].iter().filter(|x| x.dst == rt.dst).count();
+        if earlier + 1 > triggers {
+            v(out, "retry.without_trigger", format!("server sent Retry #{} to {} at {} us but only {} token-less Initial datagram(s) from there had arrived", earlier + 1, rt.dst, rt.t, triggers));
+        }
+        // RFC 9000 17.2.5.1: the Source Connection ID "MUST NOT be equal to the Destination Connection ID
+        // field of the packet sent by the client"; the Destination Connection ID is the client's Source
+        // Connection ID (17.2: "the Source Connection ID ... of the Initial packet")
+        let answered: Vec<&ClientInitial> = rv.initials.iter().filter(|i| i.token.is_empty() && i.src == rt.dst && r.dgrams[i.di].delivered_at.iter().any(|t| *t <= rt.t)).collect();
+        if answered.iter().any(|i| i.dcid == rt.scid) {
+            v(out, "retry.scid_equals_client_dcid", format!("Retry at {} us carries a Source Connection ID equal to the Destination Connection ID the client chose", rt.t));
+        }
+        if !answered.is_empty() && !answered.iter().any(|i| i.scid == rt.dcid) {
+            v(out, "retry.dcid_not_client_scid", format!("Retry at {} us is addressed to connection id {} which is not the client's Source Connection ID", rt.t, hexs(&rt.dcid)));
+        }
+        if rt.token.is_empty() {
+            v(out, "retry.empty_token", format!("Retry at {} us carries no token", rt.t));
+        }
+    }
+    // --- client side
+    // RFC 9000 17.2.5.2: "A client MUST accept and process at most one Retry packet for each connection
+    // attempt"; "MUST discard any subsequent Retry packets"
+    if rv.accepted.len() > 1 {
+        v(out, "retry.second_retry_processed", format!("the client changed its Initial's connection id/token after Retry packets {} times ({:?})", rv.accepted.len(), rv.accepted.iter().map(|a| a.0).collect::<Vec<_>>()));
+    }
+    // connection ids the server itself used as Source Connection ID in Initial / Handshake packets
+    // (RFC 9000 7.2: the client switches to it on the first such packet - not a Retry matter)
+    let server_scids: Vec<(u64, Vec<u8>)> = r.dgrams.iter().filter(|d| d.from == SERVER).flat_map(|d| wire::long_headers(&d.payload).into_iter().filter(|h| h.kind != Kind::Retry).map(move |h| (d.t, h.scid))).collect();
+    for i in 1..rv.initials.len() {
+        let (prev, cur) = (&rv.initials[i - 1], &rv.initials[i]);
+        if prev.token == cur.token && prev.dcid == cur.dcid {
+            continue;
+        }
+        // the token / destination id changed: the new pair must be that of a Retry which reached the
+        // client *unmodified* (17.2.5.2: "Clients MUST discard Retry packets that have a Retry Integrity
+        // Tag that cannot be validated")
+        let genuine = rv.retries.iter().any(|rt| rt.token == cur.token && rt.scid == cur.dcid && r.dgrams[rt.di].delivered_intact && r.dgrams[rt.di].delivered_at.iter().any(|t| *t <= cur.t));
+        let server_chosen = prev.token == cur.token && server_scids.iter().any(|(t, id)| *t <= cur.t && *id == cur.dcid);
+        if !genuine && !server_chosen {
+            v(out, "retry.unauthentic_retry_accepted", format!("client Initial in datagram #{} at {} us carries token {}.. / destination id {} that no intact Retry delivered to it provides", r.dgrams[cur.di].idx, cur.t, hexs(&cur.token[..cur.token.len().min(8)]), hexs(&cur.dcid)));
+        }
+    }
+    // 8.1.2: "This token MUST be repeated by the client in all Initial packets it sends for that
+    // connection after it receives the Retry packet"
+    if let Some((_, ri, first)) = rv.accepted.first() {
+        let rt = &rv.retries[*ri];
+        for later in &rv.initials[*first..] {
+            if later.token != rt.token {
+                v(out, "retry.token_not_repeated", format!("client Initial in datagram #{} at {} us does not repeat the Retry token", r.dgrams[later.di].idx, later.t));
+                break;
+            }
+        }
+    }
+    // RFC 9000 17.2.5.3: "A client MUST NOT reset the packet number for any packet number space after
+    // processing a Retry packet"
+    let mut last: Option<u64> = None;
+    for p in r.tx.iter().filter(|p| p.ep == CLIENT && p.space == 0) {
+        if let Some(l) = last {
+            if p.pn <= l {
+                v(out, "retry.packet_number_reset", format!("client sent Initial packet number {} at {} us after {}", p.pn, p.t, l));
+                break;
+            }
+        }
+        last = Some(p.pn);
+    }
+    // RFC 9000 7.3: after a Retry the server's transport parameters authenticate both ids
+    if let Some((_, ri, _)) = rv.accepted.first() {
+        let rt = &rv.retries[*ri];
+        let first_dcid = rv.initials.first().map(|i| i.dcid.clone()).unwrap_or_default();
+        if scn.tp_edit.is_none() {
+            for e in r.events.iter().filter(|e| e.ep == CLIENT) {
+                if let Ev::TransportParametersReceived { text } = &e.ev {
+                    let want_odcid = format!("original_destination_connection_id: Some(0x{})", hexs(&first_dcid));
+                    let want_rscid = format!("retry_source_connection_id: Some(0x{})", hexs(&rt.scid));
+                    if !text.contains(&want_odcid) {
+                        v(out, "retry.tp_original_destination_connection_id", format!("after a Retry the server's original_destination_connection_id is not the Destination Connection ID of the client's first Initial ({})", hexs(&first_dcid)));
+                    }
+                    if !text.contains(&want_rscid) {
+                        v(out, "retry.tp_retry_source_connection_id", format!("after a Retry the server's retry_source_connection_id is not the Source Connection ID of the Retry packet ({})", hexs(&rt.scid)));
+                    }
+                }
+            }
+        }
+    }
+}
+
+fn hexs(b: &[u8]) -> String {
+    b.iter().map(|x| format!("{:02x}", x)).collect()
+}
+
+// ------------------------------------------------------------------------------------------
+// FACTS: what an execution exercised (vacuity counters, reported as x_facts by the master)
+// ------------------------------------------------------------------------------------------
+
+/// Wire-level facts about one execution.  `amp_limit_reached`: at some instant before the client's
+/// address was validated the server had sent at least 3x what it had received (it filled its
+/// allowance to the last byte); `amp_released`: after such an instant a further client datagram
+/// arrived and the server sent again (`..._by_credit_before_validation`: while the address was still
+/// unvalidated, i.e. the datagram brought credit only); `client_sent_while_server_blocked`: the client sent a datagram
+/// of its own accord (no server datagram had reached it since its previous one) while the server
+/// stood at the limit - the anti-deadlock probing of RFC 9002 6.2.2.1.
+pub fn facts(r: &Record) -> Vec<(&'static str, u64)> {
+    let mut out = Vec::new();
+    let rv = retry_view(r);
+    // address validation as in mon_amp
+    let hs_validated = r.dgrams.iter().filter(|d| d.from == CLIENT && d.delivered_intact && wire::datagram_packet_kinds(&d.payload).contains(&Kind::Handshake)).filter_map(|d| d.delivered_at.first().copied()).min().unwrap_or(u64::MAX);
+    let hs_validated = hs_validated.min(r.rx.iter().filter(|p| p.ep == SERVER && p.space == 1).map(|p| p.t).min().unwrap_or(u64::MAX));
+    let token_validated = rv.initials.iter().filter(|i| !i.token.is_empty() && r.dgrams[i.di].delivered_intact).filter(|i| rv.retries.iter().any(|rt| rt.token == i.token && rt.dst == i.src && rt.t <= i.t)).filter_map(|i| r.dgrams[i.di].delivered_at.first().copied()).min().unwrap_or(u64::MAX);
+    // the limit as s2n-quic applies it (per connection, until a Handshake packet is processed) is
+    // what the scenario wants to reach, so token validation is not taken into account here
+    let mut sent = 0u64;
+    let mut blocked_since: Option<u64> = None;
+    let mut reached = 0u64;
+    let mut released = 0u64;
+    let mut probed = 0u64;
+    let mut min_slack = i64::MAX;
+    let conn_start = rv.initials.iter().filter(|i| !i.token.is_empty()).map(|i| i.t).min();
+    let received_at = |t: u64| -> u64 {
+        r.dgrams.iter().filter(|c| c.from == CLIENT && conn_start.map_or(true, |s| c.t >= s)).map(|c| c.delivered_at.iter().filter(|x| **x <= t).count() as u64 * c.delivered_len as u64).sum()
+    };
+    let mut released_by_credit = 0u64;
+    for d in r.dgrams.iter().filter(|d| d.idx != u32::MAX) {
+        if d.from == SERVER {
+            if wire::datagram_kind(&d.payload) == Kind::Retry {
+                continue;
+            }
+            if let Some(since) = blocked_since.take() {
+                if received_at(d.t) > received_at(since) {
+                    released = 1;
+                    if d.t < hs_validated {
+                        released_by_credit = 1;
+                    }
+                }
+            }
+            if d.t >= hs_validated {
+                continue;
+            }
+            sent += d.payload.len() as u64;
+            let slack = 3 * received_at(d.t) as i64 - sent as i64;
+            min_slack = min_slack.min(slack);
+            if slack <= 0 {
+                reached = 1;
+                blocked_since = Some(d.t);
+            }
+        } else if d.from == CLIENT {
+            if let Some(since) = blocked_since {
+                // of its own accord: nothing from the server reached the client since its previous datagram
+                let heard = r.dgrams.iter().any(|s| s.from == SERVER && s.t > since && s.delivered_at.iter().any(|x| *x <= d.t));
+                let last_server_rx = r.dgrams.iter().filter(|s| s.from == SERVER).flat_map(|s| s.delivered_at.iter()).filter(|x| **x <= d.t).max().copied().unwrap_or(0);
+                if !heard && d.t > last_server_rx {
+                    probed = 1;
+                }
+            }
+        }
+    }
+    out.push(("amp_limit_reached", reached));
+    out.push(("amp_released", released));
+    out.push(("amp_released_by_credit_before_validation", released_by_credit));
+    out.push(("client_sent_while_server_blocked", probed));
+    out.push(("retry_sent", (!rv.retries.is_empty()) as u64));
+    out.push(("retry_taken_over", (!rv.accepted.is_empty()) as u64));
+    let retry_deliveries: usize = rv.retries.iter().map(|rt| r.dgrams[rt.di].delivered_at.len()).sum();
+    out.push(("retry_extra_copy_reached_client", (retry_deliveries > 1) as u64));
+    out.push(("retry_reached_client_modified", rv.retries.iter().any(|rt| !r.dgrams[rt.di].delivered_intact && !r.dgrams[rt.di].delivered_at.is_empty()) as u64));
+    out.push(("token_validated_before_handshake_packet", (token_validated < hs_validated) as u64));
+    let _ = min_slack;
+    out
+}
+
+// ------------------------------------------------------------------------------------------
 // AMP (C11)
 // ------------------------------------------------------------------------------------------
 
@@ -626,17 +889,74 @@ pub fn mon_amp(_scn: &Scenario, r: &Record, out: &mut V) {
         .filter_map(|d| d.delivered_at.first().copied())
         .min()
         .unwrap_or(u64::MAX);
+    // RFC 9000 8.1.2: "it proves to the server that it received the token": an Initial that carries a
+    // token the server itself put into a Retry packet *for that address* validates the address once
+    // the server has received it (intact); the Retry packets themselves are sent before that and count
+    let rv = retry_view(r);
+    let token_validated_at = rv
+        .initials
+        .iter()
+        .filter(|i| !i.token.is_empty() && r.dgrams[i.di].delivered_intact)
+        .filter(|i| rv.retries.iter().any(|rt| rt.token == i.token && rt.dst == i.src && rt.t <= i.t))
+        .filter_map(|i| r.dgrams[i.di].delivered_at.first().copied())
+        .min()
+        .unwrap_or(u64::MAX);
+    // RFC 9000 8.1: "Once an endpoint has successfully processed a Handshake packet from the peer, it
+    // can consider the peer address to have been validated": a datagram whose *first* coalesced packet
+    // was damaged in flight still validates the address when the Handshake packet behind it is
+    // authentic - the server's receive interceptor sees exactly the packets that passed authentication
+    let hs_processed_at = r.rx.iter().filter(|p| p.ep == SERVER && p.space == 1).map(|p| p.t).min().unwrap_or(u64::MAX);
+    let validated_at = validated_at.min(token_validated_at).min(hs_processed_at);
     let first_client_addr = r.dgrams.iter().find(|d| d.from == CLIENT).map(|d| d.src);
-    let mut sent: u64 = 0;
-    for d in r.dgrams.iter().filter(|d| d.from == SERVER) {
-        if d.t >= validated_at {
-            break;
+    {
+        let mut sent: u64 = 0;
+        // `forgetful`: twin of the saturating allowance, see the new-path rule below.  A strict violation
+        // that the twin still permits is the KNOWN C11 finding (the overshoot of the last datagram is
+        // forgotten) showing on the first path: it needs a client datagram that is not a multiple of the
+        // server's datagram size (e.g. truncated in flight) followed by a small one.
+        let mut forgetful: u64 = 0;
+        let mut credited: usize = 0;
+        let mut blocked: Vec<(u64, u64)> = Vec::new();
+        let mut rx_events: Vec<(u64, u64)> = r.dgrams.iter().filter(|c| c.from != SERVER).flat_map(|c| c.delivered_at.iter().map(move |t| (*t, c.delivered_len as u64))).collect();
+        rx_events.sort();
+        for d in r.dgrams.iter().filter(|d| d.from == SERVER) {
+            if d.t >= validated_at {
+                break;
+            }
+            while credited < rx_events.len() && rx_events[credited].0 <= d.t {
+                forgetful += 3 * rx_events[credited].1;
+                credited += 1;
+            }
+            let received: u64 = rx_events[..credited].iter().map(|e| e.1).sum();
+            if sent >= 3 * received {
+                let clause = if forgetful > 0 { "amp.limit.overshoot_forgotten" } else { "amp.limit" };
+                v(out, clause, format!("server started datagram #{} ({} bytes) at {} us to an unvalidated address after already sending {} bytes with only {} bytes received", d.idx, d.payload.len(), d.t, sent, received));
+            }
+            sent += d.payload.len() as u64;
+            forgetful = forgetful.saturating_sub(d.payload.len() as u64);
+            // the server stands at the limit from now until the next client datagram arrives (both by
+            // the strict count and by the saturating twin, so that the known finding cannot leak in here)
+            if sent >= 3 * received && forgetful == 0 {
+                let until = rx_events.iter().map(|e| e.0).filter(|t| *t > d.t).min().unwrap_or(u64::MAX).min(validated_at);
+                blocked.push((d.t, until));
+            }
         }
-        let received: u64 = r.dgrams.iter().filter(|c| c.from != SERVER).map(|c| c.delivered_at.iter().filter(|t| **t <= d.t).count() as u64 * c.delivered_len as u64).sum();
-        if sent >= 3 * received {
-            v(out, "amp.limit", format!("server started datagram #{} ({} bytes) at {} us to an unvalidated address after already sending {} bytes with only {} bytes received", d.idx, d.payload.len(), d.t, sent, received));
+        // RFC 9002 6.2.2.1: "If no additional data can be sent, the server's PTO timer MUST NOT be armed
+        // until datagrams have been received from the client, because packets sent on PTO count against
+        // the anti-amplification limit."  A timer that is not armed cannot expire: the server's PTO count
+        // must not grow strictly inside such an interval (at its end the arriving datagram re-arms the
+        // timer, "if the PTO timer is then set to a time in the past, it is executed immediately").
+        let mut last_count: HashMap<(u64, u64), u32> = HashMap::new();
+        for e in r.events.iter().filter(|e| e.ep == SERVER) {
+            if let Ev::Recovery { pto_count, path, .. } = &e.ev {
+                let prev = last_count.insert((e.conn, *path), *pto_count).unwrap_or(0);
+                if *pto_count > prev {
+                    if let Some((b, c)) = blocked.iter().find(|(b, c)| *b < e.t && e.t < *c) {
+                        v(out, "amp.pto_while_blocked", format!("the server's probe timeout expired at {} us (PTO count {} -> {}) although it had stood at the anti-amplification limit since {} us and no client datagram arrived before {} us: the timer was armed while nothing could be sent", e.t, prev, pto_count, b, if *c == u64::MAX { 0 } else { *c }));
+                    }
+                }
+            }
         }
-        sent += d.payload.len() as u64;
     }
     // the same limit applies to every further client address (migration / rebinding) until that path is
     // validated: the server processes a PATH_RESPONSE after the first datagram from the new address
@@ -845,11 +1165,27 @@ pub fn mon_loss(_scn: &Scenario, r: &Record, out: &mut V) {
         let mut min_sample = u64::MAX;
         let mut max_sample = 0u64;
         let mut discarded: BTreeSet<u8> = BTreeSet::new();
+        // RFC 9002 6.3: a client that takes over a Retry resets its loss recovery state: the Initial
+        // packets of the first attempt are resolved by that (neither acknowledged nor lost, ever)
+        let retry_times = if ep == CLIENT { retry_accept_times(r) } else { Vec::new() };
+        let mut retry_discarded: BTreeSet<(u8, u64)> = BTreeSet::new();
+        let mut sent_conn: BTreeMap<(u8, u64), u64> = BTreeMap::new();
         let evs: Vec<&Event> = r.events.iter().filter(|e| e.ep == ep).collect();
         for (ei, e) in evs.iter().enumerate() {
             match &e.ev {
+                Ev::PacketReceived { space: 3, .. } if retry_times.contains(&e.t) => {
+                    for (k, _) in sent.iter() {
+                        if !acked.contains(k) && !lost.contains(k) {
+                            retry_discarded.insert(*k);
+                        }
+                    }
+                }
                 Ev::PacketSent { space, pn, len, mode } => {
                     if *space < 3 {
+                        // (per connection: a server may hold two connections in one run)
+                        if sent_conn.insert((*space, *pn), e.conn) == Some(e.conn) {
+                            v(out, "loss.packet_number_reused", format!("{} sent packet number {} in space {} twice (at {} us and {} us): its resolution is ambiguous", epn(ep), pn, space, sent[&(*space, *pn)].0, e.t));
+                        }
                         sent.insert((*space, *pn), (e.t, *len, *mode, order));
                         order += 1;
                     }
@@ -857,6 +1193,9 @@ pub fn mon_loss(_scn: &Scenario, r: &Record, out: &mut V) {
                 Ev::AckRangeReceived { space, lo, hi } => {
                     if *space < 3 {
                         for (k, _) in sent.range((*space, *lo)..=(*space, *hi)) {
+                            if retry_discarded.contains(k) {
+                                continue;
+                            }
                             if lost.contains(k) {
                                 // late ack of a packet declared lost: allowed (spurious loss), but it was resolved already
                                 continue;
@@ -892,6 +1231,11 @@ pub fn mon_loss(_scn: &Scenario, r: &Record, out: &mut V) {
                     let key = (*space, *pn);
                     if !lost.insert(key) {
                         v(out, "loss.resolved_twice", format!("{} declared packet {} in space {} lost twice", epn(ep), pn, space));
+                    }
+                    if retry_discarded.contains(&key) {
+                        // "A Retry packet cannot be treated as an acknowledgment" nor as a loss signal: the state is reset
+                        v(out, "loss.lost_after_retry_discard", format!("{} declared packet {} in space {} lost at {} us although it was discarded when the Retry was processed", epn(ep), pn, space, e.t));
+                        continue;
                     }
                     if acked.contains(&key) {
                         v(out, "loss.lost_after_ack", format!("{} declared packet {} in space {} lost after it was acknowledged", epn(ep), pn, space));
@@ -952,9 +1296,15 @@ pub fn mon_inflight(_scn: &Scenario, r: &Record, check_exact: bool, check_gate: 
         // bytes removed by a key-space discard at the current instant: the metrics event emitted while
         // the space is being discarded may still show them
         let mut just_discarded: (u64, usize) = (u64::MAX, 0);
+        let retry_times = if ep == CLIENT { retry_accept_times(r) } else { Vec::new() };
         for e in r.events.iter().filter(|e| e.ep == ep) {
             match &e.ev {
                 Ev::ActivePathUpdated => migrated = true,
+                // RFC 9002 6.3: "Clients that receive a Retry packet reset congestion control and loss
+                // recovery state": nothing of the first attempt stays in flight
+                Ev::PacketReceived { space: 3, .. } if retry_times.contains(&e.t) => {
+                    outstanding.clear();
+                }
                 Ev::PacketSent { space, pn, len, mode } => {
                     if *space >= 3 || migrated {
                         continue;
@@ -1404,8 +1754,12 @@ fn crate_tp_varint(b: &[u8], p: &mut usize) -> Option<u64> {
 pub fn mon_tpe2e(scn: &Scenario, r: &Record, out: &mut V) {
     let Some((who, edit)) = &scn.tp_edit else { return };
     let victim = other(*who);
-    let item = crate::families::tp_catalogue().into_iter().find(|i| &i.edit == edit);
+    let with_retry = scn.retry != crate::scenario::Retry::Off;
+    let item = crate::families::tp_catalogue().into_iter().find(|i| &i.edit == edit && i.retry == with_retry);
     let Some(item) = item else { return };
+    if item.retry && retry_view(r).accepted.is_empty() && r.panicked.is_none() {
+        v(out, "machinery.retry_vacuous", format!("{}: no Retry was taken over by the client in an after-Retry item", item.name));
+    }
     let closed = r.events.iter().find(|e| e.ep == victim && matches!(e.ev, Ev::Closed { .. }));
     let victim_read_data = r.app.iter().any(|a| a.ep == victim && matches!(a.ev, App::Read { .. }));
     if item.accept {
